@@ -54,8 +54,8 @@ PROPS = {
         explanation="Proved for all strings (Verus): from_str == parse_post -- designated separators taken right to left (last '#', last '?', first '/', last '@', last '/'), each component routed to its decoder; decode_subpath / decode_namespace / decode_qualifiers equal their fold specifications; type and key legality and lower-casing; checksum text. BOUNDED: that every permitted spelling of a tuple is mapped to the tuple by these specification functions -- exhaustive tuples x spelling freedoms (S) and every T_N string against an independent reference parser, on the real code."),
     'C03': dict(level='other', groups=['fmt', 'qual', 'purl', 'pkgtype'], kani=ESC, bounded=['format:C03', 'tokens:C03', 'scale:C03', 'spell:C03', 'qualmap', 'preds', 'shapes'] + A,
         explanation='Proved (Verus): on Ok, the output of Display::fmt is exactly canon_spec(type, parts) = pkg: type / [namespace /] name [@ version] [? k=v & ...] [# subpath] with absent parts omitted, pairs in storage order; storage order is strictly ascending after every verified mutator; accessors map empty to None; the documented panic is the precondition. Complete (Kani): every byte of every escape set, upper-case hex. BOUNDED: retain keeps the order; cross-check against an independent renderer on every Unicode scalar value in every component position, all ASCII pairs, T_N, S, and the map exploration.'),
-    'C04': dict(level='other', groups=['builder', 'parse', 'lib_shape', 'qual', 'pkgtype', 'cksum', 'purl'], kani=['type_char', 'key_char'], bounded=['tokens:C04', 'scale:C04', 'builder', 'protocol', 'preds', 'checksum', 'qualmap'] + A,
-        explanation='Proved (Verus) for every PurlShape implementation: build() returns a value with non-empty name, the qualifier invariant (valid lower-case keys, strictly ascending, each retrievable: search/get contracts), non-empty values including the checksum text, after exactly one hook call (build_post); from_str ends in build() (parse_post); built-in shapes validate and ASCII-lower-case the type; the checksum text is the strictly sorted listing with lower-case hex (canon_text). Assumed at two call sites inside build(): Qualifiers::retain(non-empty) (FnMut is outside Verus) and try_get_typed::<Checksum>() -- both BOUNDED by the map / checksum / protocol suites.'),
+    'C04': dict(level='proof', groups=['builder', 'parse', 'lib_shape', 'qual', 'pkgtype', 'cksum', 'purl', 'ckfix', 'c01'], kani=['type_char', 'key_char'], bounded=['tokens:C04', 'scale:C04', 'builder', 'protocol', 'preds', 'checksum', 'qualmap'] + A,
+        explanation='Proved (Verus) for every PurlShape implementation: build() returns a value with non-empty name, the qualifier invariant (valid lower-case keys, strictly ascending, each retrievable: search/get contracts), non-empty values including the checksum text, after exactly one hook call (build_post); from_str ends in build() (parse_post); built-in shapes validate and ASCII-lower-case the type; the checksum text is the strictly sorted listing with lower-case hex (canon_text); theorem_c04_checksum (group c01, on theorem_checksum_text_shape of group ckfix): the checksum text of every value build() hands out is the comma-joined listing algorithm:hex of a non-empty sequence of entries in strictly ascending algorithm order with an even number of hex digits each, and contains no ASCII upper-case letter (a text that Unicode lower-casing leaves alone has none: lemma_lower_fixed_no_upper). Every clause of the statement is thus a postcondition of build() / from_str / the accessors / get, or a lemma over them. Assumed: Vec::retain keeps exactly the elements with non-empty values, in order (the one std call inside Qualifiers::retain, FnMut is outside Verus); a user-written hook keeps the qualifier invariant (it can reach the list only through the public API, whose mutators are verified to keep it). The map / checksum / protocol / builder suites remain as a cross-check on the compiled code.'),
     'C05': dict(level='other', groups=['parse', 'parse_seg', 'lib_shape', 'qual', 'pkgtype', 'builder', 'cksum'], kani=['type_char', 'key_char'], bounded=['faults', 'tokens:C05', 'scale:C05', 'lower', 'checksum'] + A,
         explanation="Proved (Verus): the error clauses of parse_post (scheme, missing type, missing name, invalid type before the conversion), dq_fold (item without '=', invalid key, key already present => InvalidQualifier; undecodable value => InvalidEscape), sub_fold / ns_fold (hidden '/', encoded dot segments, bad UTF-8 => InvalidEscape), ck_parse / canon text (malformed checksum => InvalidQualifier), build_post (empty name), pkg_finish_rel (maven without namespace), with the conversion of ParseError through From. BOUNDED: that a string with exactly one listed defect reaches exactly that clause -- every fault kind x position x spelling over S, never-accepted over T_N; PackageType::from_str (phf)."),
     'C06': dict(level='other', groups=['lib_lower', 'lib_shape', 'pkgtype', 'qual', 'builder', 'purl', 'parse_seg', 'cksum', 'fmt', 'parse'], kani=ESC + ['type_char', 'key_char', 'empty_is_invalid', 'package_type_names'],
